@@ -217,6 +217,25 @@ pub fn run(ctx: &Ctx) -> Outcome {
     if part == "bulk" || part == "all" {
         run_bulk(ctx, &mut out);
     }
+    if part == "clear-next-table" {
+        for batch in [1usize, 2, 8] {
+            out.evaluations += 1;
+            match guarded(|| clear_into_next_table(batch)).unwrap_or_else(Err) {
+                Ok(n) => {
+                    out.add("clear_next_table_cases", 1);
+                    out.add("clear_next_table_references_held", n.unwrap_or(0) % 100);
+                    out.add("clear_next_table_clear_waited_for_the_transfer", n.unwrap_or(0) / 100);
+                    out.distinct.insert(batch as u64);
+                }
+                Err(e) if e.starts_with("INCONCLUSIVE") => out.inconclusive.push(e),
+                Err(e) => {
+                    out.violate("c03/clear-next-table", e, Json::obj().with("check", Json::s("c03")).with("part", Json::s("clear-next-table")).with("batch", Json::u(batch)));
+                    break;
+                }
+            }
+        }
+        return out;
+    }
     if part == "held" || part == "all" {
         if ctx.shard == 0 && ctx.args.u64("first-round", 0) == 0 {
             run_windows(ctx, &mut out);
@@ -404,6 +423,138 @@ fn window_case(case: u32, batch: usize, nth: u64, step: Option<u64>, main_steps:
         return Err(format!("{name} [collector batch {batch}, writer frozen at {at}]: {p}"));
     }
     Ok(Some((name.to_string(), held)))
+}
+
+/// `clear` that has moved on to the successor table while a transfer is still running: it must not
+/// retire entries that lookups can still reach through an old bin that is not forwarded yet.
+/// Deterministic: (1) a `clear` is frozen in the middle of its walk over the old table, (2) a
+/// writer fills bin 2 again and starts the 16 -> 32 resize, frozen after it has stored both new
+/// bins of bin 2 but before the forwarding marker, (3) the `clear` is released, meets a forwarded
+/// (empty) bin, restarts in the successor table and empties it, (4) a reader pins NOW and looks
+/// the keys of bin 2 up in the current (old) table, keeps the references, (5) everybody finishes
+/// and flushes, (6) the reader re-reads what it holds.
+pub fn clear_into_next_table(batch: usize) -> Result<Option<u64>, String> {
+    use crate::orch::Actor;
+    use flurry::verif as fvf;
+    use std::sync::Arc;
+    ledger().reset();
+    let _ = corrupt_take();
+    let map: Arc<Map> = Arc::new(Map::with_hasher(HB::new(IDENTITY)).with_collector(seize::Collector::new().batch_size(batch)));
+    {
+        let g = map.guard();
+        for k in 8..16u64 {
+            map.insert(TKey::new(k, 0), TVal::new(1000 + k), &g);
+        }
+    }
+    // (1) clear, frozen after it has looked at bins 0..=4 of the 16-bin table (all empty)
+    let m = map.clone();
+    let clearer = Actor::spawn("clear", 1, |g| g.arm_step(7), move || {
+        let g = m.guard();
+        m.clear(&g);
+        for i in 0..6u64 {
+            m.insert(TKey::new(9000 + i, 1), TVal::new(i), &g);
+            m.remove(&KQ(9000 + i), &g);
+        }
+        g.flush();
+    });
+    match clearer.wait_frozen_or_done(20_000) {
+        Ok(true) => {}
+        Ok(false) => return Err("INCONCLUSIVE clear finished before its freeze point".into()),
+        Err(e) => return Err(format!("INCONCLUSIVE {e}")),
+    }
+    // (2) bin 2 gets the list 2 -> 18 again, two more entries bring the count to 12: resize
+    let m = map.clone();
+    let grower = Actor::spawn("grower", 2, |g| g.arm_site(fvf::WIN_TRANSFER_BEFORE_FORWARD, 9), move || {
+        let g = m.guard();
+        for k in [2u64, 18, 0, 1] {
+            m.insert(TKey::new(k, 2), TVal::new(2000 + k), &g);
+        }
+        for i in 0..6u64 {
+            m.insert(TKey::new(9100 + i, 2), TVal::new(i), &g);
+            m.remove(&KQ(9100 + i), &g);
+        }
+        g.flush();
+    });
+    match grower.wait_frozen_or_done(20_000) {
+        Ok(true) => {}
+        Ok(false) => {
+            clearer.gate.release();
+            return Err("INCONCLUSIVE the grower finished without stopping inside the transfer of bin 2".into());
+        }
+        Err(e) => return Err(format!("INCONCLUSIVE {e}")),
+    }
+    let in_window = {
+        let g = map.guard();
+        let d = map.verif_dump(&g);
+        d.len == 16 && matches!(d.bins.get(2), Some(flurry::verif::BinDump::List { .. })) && matches!(d.bins.get(5), Some(flurry::verif::BinDump::Moved))
+    };
+    if !in_window {
+        clearer.gate.release();
+        grower.gate.release();
+        return Err("INCONCLUSIVE the transfer was not stopped between the new bins and the forwarding marker of bin 2".into());
+    }
+    // (3) clear goes on: forwarded bin 5 -> either it empties the successor table right away, or it
+    // waits for the transfer to finish (then it is still running when the reader looks)
+    clearer.gate.release();
+    let clear_waited = clearer.wait_done(1_500).is_err();
+    // (4) a reader that pins only now
+    let g = map.guard();
+    let mut held: Vec<(&TKey, u64, u64, &TVal, u64, u64)> = Vec::new();
+    for k in [2u64, 18] {
+        if let Some((kk, v)) = map.get_key_value(&KQ(k), &g) {
+            held.push((kk, kk.id, kk.k, v, v.id, v.v));
+        }
+    }
+    let led = ledger();
+    for h in &held {
+        led.lease(h.1);
+        led.lease(h.4);
+    }
+    // (5)
+    grower.gate.release();
+    if let Err(e) = grower.wait_done(30_000) {
+        return Err(format!("INCONCLUSIVE {e}"));
+    }
+    grower.join()?;
+    if let Err(e) = clearer.wait_done(30_000) {
+        return Err(format!("INCONCLUSIVE {e}"));
+    }
+    clearer.join()?;
+    let _ = clear_waited;
+    // (6)
+    let mut problem = None;
+    for (kk, kid, kkey, v, vid, vv) in &held {
+        if !kk.verify() || kk.id != *kid || kk.k != *kkey || led.is_live(*kid) == Some(false) {
+            problem = Some(format!(
+                "key {kkey} was found by get_key_value under a guard pinned after clear() had returned; the reference (instance {kid}) now reads id {} key {}; ledger: {}",
+                kk.id,
+                kk.k,
+                if led.is_live(*kid) == Some(false) { "this instance has been dropped" } else { "live" }
+            ));
+        } else if !v.verify() || v.id != *vid || v.v != *vv || led.is_live(*vid) == Some(false) {
+            problem = Some(format!(
+                "the value of key {kkey} was obtained by get_key_value under a guard pinned after clear() had returned; the reference (instance {vid}) now reads id {} payload {:#x}; ledger: {}",
+                v.id,
+                v.v,
+                if led.is_live(*vid) == Some(false) { "this instance has been dropped" } else { "live" }
+            ));
+        }
+    }
+    for h in &held {
+        led.release(h.1);
+        led.release(h.4);
+    }
+    let n = held.len() as u64;
+    drop(held);
+    drop(g);
+    let _ = corrupt_take();
+    if let Some(p) = problem {
+        std::mem::forget(map);
+        return Err(format!(
+            "clear() walked into the successor table while bin 2 of the old table was being transferred (new bins stored, forwarding marker not yet) and retired entries that the old bin still leads to [collector batch {batch}]: {p}"
+        ));
+    }
+    Ok(Some(n + 100 * clear_waited as u64))
 }
 
 pub fn run_windows(ctx: &Ctx, out: &mut Outcome) {
